@@ -373,6 +373,17 @@ func childC09(args []string) {
 		specs = append(specs, s)
 	}
 	dir := scratch()
+	if history >= 2 {
+		// a longer history also has file renders of unrelated parts BEFORE the models are constructed: a render must not
+		// leave anything behind that changes what is built afterwards (text and Bezier models draw on library-global state)
+		sph, _ := sdf.Sphere3D(1)
+		cir, _ := sdf.Circle2D(1)
+		render.ToSTL(sph, filepath.Join(dir, "early.stl"), render.NewMarchingCubesUniform(8))
+		render.To3MF(sph, filepath.Join(dir, "early.3mf"), render.NewMarchingCubesOctree(8))
+		render.ToDXF(cir, filepath.Join(dir, "early.dxf"), render.NewMarchingSquaresUniform(8))
+		render.ToSVG(cir, filepath.Join(dir, "early.svg"), render.NewMarchingSquaresQuadtree(8))
+		render.ToTriangles(sph, render.NewMarchingCubesUniform(8))
+	}
 	c09BuildModels()
 	// preceding render history (other models / renderers first)
 	for k := 0; k < history; k++ {
